@@ -19,9 +19,12 @@ type solverCfg struct {
 
 func solverConfigs(timeoutS int, seed int) []solverCfg {
 	z3opts := fmt.Sprintf("(set-option :smt.mbqi false)\n(set-option :auto_config false)\n(set-option :smt.random_seed %d)\n", seed)
+	z3def := fmt.Sprintf("(set-option :smt.random_seed %d)\n", seed)
 	return []solverCfg{
-		{"z3-5.1.0", []string{"z3-new", "-in", fmt.Sprintf("-T:%d", timeoutS)}, z3opts},
-		{"z3-4.8.12", []string{"z3", "-in", fmt.Sprintf("-T:%d", timeoutS)}, z3opts},
+		{"z3-5.1.0", []string{"z3-new", "-in", fmt.Sprintf("-T:%d", timeoutS)}, z3def},
+		{"z3-5.1.0/ematch", []string{"z3-new", "-in", fmt.Sprintf("-T:%d", timeoutS)}, z3opts},
+		{"z3-4.8.12/ematch", []string{"z3", "-in", fmt.Sprintf("-T:%d", timeoutS)}, z3opts},
+		{"z3-4.8.12", []string{"z3", "-in", fmt.Sprintf("-T:%d", timeoutS)}, z3def},
 		{"cvc5-1.0", []string{"cvc5", "--lang=smt2", fmt.Sprintf("--tlimit=%d", timeoutS*1000), "--full-saturate-quant", fmt.Sprintf("--seed=%d", seed)}, "(set-logic ALL)\n"},
 	}
 }
